@@ -345,9 +345,17 @@ def stat_model(ctx):
     mod = repo.module("gaftools.cli.stat", "R19.2")
     m = StatModel()
     m.f = None
-    from ..core import expand_table_dispatch, inline_pure_temps, tail_inlined
+    from ..core import desugar_dict_get, expand_table_dispatch, inline_pure_temps, tail_inlined
 
-    for f in [inline_pure_temps(expand_table_dispatch(tail_inlined(repo, f0))) for f0 in mod.funcs.values()]:
+    def _entry_or_none(f_):
+        # `read = reads.get(name); if read is None: ... else: read.x = ...` is the membership test it abbreviates — unless the
+        # entry is handed to one of its own methods (`read.update(...)`), which R19.4 follows through the local name
+        gets = {st_.targets[0].id for st_ in walk_own(f_.node) if isinstance(st_, ast.Assign) and len(st_.targets) == 1 and isinstance(st_.targets[0], ast.Name) and isinstance(st_.value, ast.Call) and isinstance(st_.value.func, ast.Attribute) and st_.value.func.attr == "get"}
+        if any(isinstance(c_, ast.Call) and isinstance(c_.func, ast.Attribute) and isinstance(c_.func.value, ast.Name) and c_.func.value.id in gets for c_ in walk_own(f_.node)):
+            return f_
+        return desugar_dict_get(f_)
+
+    for f in [inline_pure_temps(_entry_or_none(expand_table_dispatch(tail_inlined(repo, f0)))) for f0 in mod.funcs.values()]:
         for n in f.node.body:
             if isinstance(n, ast.For) and "read_file" in norm(n.iter):
                 m.f, m.loop = f, n
